@@ -87,7 +87,7 @@ type c02Node struct {
 	kind   string // R E B C If While Iter
 	conds  []bool
 	bodies [][]*c02Node
-	iter   int // 0..4 : list1 list2 dict2 novars empty
+	iter   int  // 0..4 : list1 list2 dict2 novars empty
 	noElse bool // 如果 / 再如 with two bodies and no 否则
 }
 
@@ -385,7 +385,9 @@ func c02Check(m int, idx int64, method bool, mode int) (*mc.Failure, *zn.Program
 		return nil, nil
 	}
 	src := zn.Render(prog, nil)
-	cs := func() json.RawMessage { return mc.J(c02Case{M: m, Idx: idx, Method: method, Stray: stray, Bare: mode == 2, Source: src}) }
+	cs := func() json.RawMessage {
+		return mc.J(c02Case{M: m, Idx: idx, Method: method, Stray: stray, Bare: mode == 2, Source: src})
+	}
 	rf := zn.NewRef()
 	want, werr, aborted := rf.RunProgram(prog, nil)
 	if aborted {
